@@ -14,7 +14,8 @@ COLS = {
 }
 # entity -> to-one relationships (name -> target entity)
 TO_ONE = {
-    # `home` is one relationship NAME on two entities leading to two different tables
+    # `home` is one relationship NAME on two entities leading to two different tables;
+    # Post.home is NOT NULL (like Country.region), Author.home is nullable
     "post": {"author": "author", "home": "country"},
     "author": {"country": "country", "home": "region"},
     "comment": {"post": "post", "author": "author"},
@@ -69,7 +70,7 @@ def canonical_instance():
         pid += 1
         author = [1, 2, 3, 4, None][i % 5]
         inst["post"].append({"id": pid, "title": STRS[i % len(STRS)], "rating": [0, 5][i % 2],
-                             "author_id": author, "home_id": [2, None, 1, 3][(i // 2) % 4]})
+                             "author_id": author, "home_id": [2, 3, 1, 3][(i // 2) % 4]})
         for j, v in enumerate(pat):
             cid += 1
             inst["comment"].append({"id": cid, "text": STRS[(i + j) % len(STRS)], "score": v,
@@ -107,7 +108,7 @@ def random_instance(rng):
     for i in range(npost):
         inst["post"].append({"id": i + 1, "title": rng.choice(STRS), "rating": rng.choice(INTS),
                              "author_id": rng.choice([None] + list(range(1, na + 1))),
-                             "home_id": rng.choice([None] + list(range(1, nc + 1)))})
+                             "home_id": rng.randint(1, nc)})
         for _ in range(rng.choice([0, 0, 1, 2, 3])):
             cid += 1
             inst["comment"].append({"id": cid, "text": rng.choice(STRS), "score": rng.choice(INTS),
@@ -116,6 +117,24 @@ def random_instance(rng):
         if nt:
             for tg in rng.sample(range(1, nt + 1), rng.randint(0, min(3, nt))):
                 inst["post_tags"].append((i + 1, tg))
+    return inst
+
+
+def dangling_instance(rng):
+    """A random instance in which some foreign keys (nullable AND mandatory ones) point at
+    rows that do not exist - legal content for an engine that does not enforce foreign keys
+    (SQLite by default).  Navigating such a reference yields null, like a NULL key."""
+    inst = random_instance(rng)
+    inst["_dangling"] = True
+    for entity, fk in (("country", "region_id"), ("post", "home_id"), ("post", "author_id"),
+                       ("author", "country_id"), ("author", "home_id"), ("comment", "post_id"),
+                       ("comment", "author_id")):
+        rows = inst[entity]
+        for r in rows:
+            if rng.random() < 0.35:
+                r[fk] = 90 + rng.randint(1, 3)
+        if rows and not any(r[fk] is not None and r[fk] > 90 for r in rows):
+            rows[0][fk] = 91
     return inst
 
 
@@ -189,8 +208,12 @@ class RelEval:
                     return ("scalar", None, UNSPEC)
                 return ("scalar", None, row[p])
             if p in TO_ONE[entity]:
+                fk = row.get(p + "_id")
                 entity, row = self.g.to_one(entity, row, p)
                 if i == len(parts) - 1:
+                    if row is None and fk is not None:
+                        # the reference itself of a dangling key: key value vs. related row
+                        return ("scalar", None, UNSPEC)
                     return ("entity", entity, row)
                 continue
             if p in TO_MANY[entity]:
